@@ -1793,7 +1793,7 @@ pub mod c15_validated {
 // `DZKPUpgraded::validate_record` futures of its records and polls them (no-op waker, `yield_now` between sweeps) until all
 // completed: the first poll of each future is the critical section (`batcher.lock().unwrap().validate_record(..)` ->
 // `is_ready_for_validation`), so the T threads race for the pending count / bitmap / deque of the same batches. A round is
-// ok iff every record was released with `Ok(())`, nothing panicked, nothing was still pending after 20 s (the only use of
+// ok iff every record was released with `Ok(())`, nothing panicked, nothing was still pending after 10 s (a hang ends the request; the only use of
 // the clock: a failure path), the validator reports `is_verified()`, and the batch validation closure ran EXACTLY ONCE for
 // every batch index 0 … ⌈total/rpb⌉−1 (guarded hook at the top of `Batch::validate`, registry in harness/c16.rs).
 // `validations` = number of closure invocations over all rounds. Deterministic on a correct tree (mutual exclusion:
@@ -1857,7 +1857,7 @@ pub mod c16_race {
                             let mut futs: Vec<Option<Fut<'_>>> = mine.iter().map(|&r| Some(ctx.validate_record(RecordId::from(r)))).collect();
                             let mut res: Vec<(usize, String)> = vec![];
                             let mut cx = TaskCtx::from_waker(futures::task::noop_waker_ref());
-                            let deadline = std::time::Instant::now() + std::time::Duration::from_secs(20);
+                            let deadline = std::time::Instant::now() + std::time::Duration::from_secs(10);
                             loop {
                                 for (i, slot) in futs.iter_mut().enumerate() {
                                     let Some(f) = slot.as_mut() else { continue };
@@ -1914,11 +1914,17 @@ pub mod c16_race {
             }
             drop(ctx);
             let _ = guarded(move || drop(validator));
+            let hung = outcomes.iter().flatten().any(|(_, o)| o == "hang");
             match bad {
                 None => ok += 1,
                 Some(b) => {
                     first_fail.get_or_insert(b);
                 }
+            }
+            if hung {
+                // every further hang would cost another deadline: the request has failed, stop here
+                // (the remaining rounds count as not ok)
+                break;
             }
         }
         match first_fail {
